@@ -44,15 +44,36 @@ def gen_seq(rng):
     from artlib.cvi.iCVIs.CalinkskiHarabasz import iCVI_CH
     d = rng.choice([1, 2, 3])
     n = rng.randrange(2, 12)
-    pts = [np.array([rng.randrange(0, 9) / 8 for _ in range(d)]) for _ in range(n)]
-    ic = iCVI_CH(pts[0])
+    # how the samples reach the index: float rows; rows of a narrower / unsigned / boolean dtype (whole numbers, as
+    # binary or count data are); one buffer that the caller refills for every sample (a streaming caller)
+    how = rng.choice(["float", "float", "dtype", "buffer"])
+    if how == "dtype":
+        dt = rng.choice([np.uint8, np.uint16, np.int8, np.int64, np.float32, bool])
+        hi = 2 if dt is bool else 5
+        pts = [np.array([rng.randrange(0, hi) for _ in range(d)], dtype=float) for _ in range(n)]
+    else:
+        dt = float
+        pts = [np.array([rng.randrange(0, 9) / 8 for _ in range(d)]) for _ in range(n)]
+    buf = np.zeros(d, dtype=dt)
+
+    def give(x):
+        if how == "buffer":
+            buf[:] = x
+            return buf
+        return x.astype(dt) if how == "dtype" else x
+    ic = iCVI_CH(give(pts[0]))
     labels, ops, k = [], [], 0
     fails = []
     for x in pts:
         l = rng.randrange(0, k + 1) if rng.random() < 0.7 else k
         if l == k:
             k += 1
-        ic.update(ic.add_sample(x, l))
+        try:
+            ic.update(ic.add_sample(give(x), l))
+        except Exception as e:
+            fails.append({"signature": "iCVI_CH/raises", "text": f"add_sample raised {type(e).__name__}: {str(e)[:80]} (samples given as {how}, dtype {np.dtype(dt).name})",
+                          "replay": {"points": [p.tolist() for p in pts[:len(labels) + 1]], "ops": [list(o[:4]) for o in ops], "given_as": how, "dtype": np.dtype(dt).name}})
+            break
         labels.append(l)
         ops.append(("add", x.tolist(), l, None, float(ic.criterion_value)))
         if rng.random() < 0.4 and len(labels) > 1:
@@ -62,7 +83,7 @@ def gen_seq(rng):
                 ln = rng.randrange(0, k + 1)
                 if ln == k:
                     k += 1
-                ic.update(ic.switch_label(pts[j], lo, ln))
+                ic.update(ic.switch_label(give(pts[j]), lo, ln))
                 labels[j] = ln
                 ops.append(("switch", pts[j].tolist(), lo, ln, float(ic.criterion_value)))
         want = batch_ch(pts[:len(labels)], labels)
@@ -75,7 +96,7 @@ def gen_seq(rng):
             resid = abs(ic.WGSS) < 1e-12
             fails.append({"signature": "iCVI_CH/wgss-rounding-residue" if resid else "iCVI_CH/value",
                           "text": f"incremental CH {got} != batch CH {want}" + (" (WGSS is a rounding residue)" if resid else ""),
-                          "replay": {"points": [p.tolist() for p in pts[:len(labels)]], "ops": ops}})
+                          "replay": {"points": [p.tolist() for p in pts[:len(labels)]], "ops": ops, "given_as": how, "dtype": np.dtype(dt).name}})
             break
     items = []
     for o in ops:
@@ -83,7 +104,7 @@ def gen_seq(rng):
             items.append(f"IAdd {qlist(o[1])} {o[2]}%nat {q(o[4])}")
         else:
             items.append(f"ISwitch {qlist(o[1])} {o[2]}%nat {o[3]}%nat {q(o[4])}")
-    return f"(mkICase {d}%nat [" + "; ".join(items) + "])", {"points": [p.tolist() for p in pts], "ops": ops}, fails
+    return f"(mkICase {d}%nat [" + "; ".join(items) + "])", {"points": [p.tolist() for p in pts], "ops": ops, "given_as": how, "dtype": np.dtype(dt).name}, fails
 
 
 def gen_fit(rng):
@@ -156,38 +177,56 @@ def gen_fit(rng):
 
 
 def cviart_gate(rng):
-    """CVIART: the reset function is (new index better than old index) for every call; joins only after a True"""
+    """CVIART: whenever the index is defined for the labelling before the step and for the candidate labelling, the
+    reset function is (candidate index strictly better); a sample ends a step in an existing cluster only after a
+    True; fit completes for every number of epochs (an exception on valid data is a failure)"""
     import artlib
     import sklearn.metrics as M
     d = 2
-    n = rng.randrange(4, 12)
+    n = rng.randrange(3, 12)
     rows = B.grid_rows(rng, n, d)
     X = np.array(rows, dtype=float)
     validity = rng.choice([1, 2, 3])
-    rho = rng.choice([0.25, 0.5, 0.75])
+    rho = rng.choice([0.0, 0.25, 0.5, 0.75, 0.9])
+    max_iter = rng.choice([1, 1, 2, 3])
     nest = rng.random() < 0.4
     with contextlib.redirect_stdout(io.StringIO()):
         base = artlib.FuzzyART(rho=rho, alpha=1 / 1024, beta=1.0)
         if nest:          # the gate must also guard DualVigilanceART's lower-vigilance path
+            if rho == 0.0:
+                rho = 0.25
+                base = artlib.FuzzyART(rho=rho, alpha=1 / 1024, beta=1.0)
             base = artlib.DualVigilanceART(base, rho_lower_bound=float(rng.choice([0.0, 0.125, 0.2])))
         est = artlib.CVIART(base, validity=validity)
     fn = {1: M.calinski_harabasz_score, 2: M.davies_bouldin_score, 3: M.silhouette_score}[validity]
-    calls = []
-    orig = est.CVI_match
-
-    step_labs = {}
+    steps = []          # one record per step_fit call: index, labelling before, clusters before, calls, resulting label
     touched = []
+    orig = est.CVI_match
+    orig_step = est.base_module.step_fit
 
     def wrapped(x, w, c_, params, extra, cache):
         labs = np.array(est.labels_).copy()
-        step_labs.setdefault(extra["index"], labs)        # the labelling before the step
         r = orig(x, w, c_, params, extra, cache)
         if not np.array_equal(np.asarray(est.labels_), labs):
             touched.append((extra["index"], int(c_)))
-        calls.append((extra["index"], int(c_), bool(r), step_labs[extra["index"]], len(est.W)))
+        steps[-1]["index"] = extra["index"]
+        steps[-1]["calls"].append((int(c_), bool(r)))
         return r
+
+    def step(x, **kw):
+        labs = np.array(est.labels_).copy()
+        if nest:
+            existing = set(int(v) for v in est.base_module.map.values()) if len(est.base_module.base_module.W) > 0 and hasattr(est.base_module, "map") else set()
+            ncat = len(est.base_module.base_module.W)
+        else:
+            existing = set(range(len(est.base_module.W)))
+            ncat = len(est.base_module.W)
+        steps.append({"index": None, "labs": labs, "existing": existing, "ncat": ncat, "calls": [], "label": None})
+        c = orig_step(x, **kw)
+        steps[-1]["label"] = int(c)
+        return c
     summ = {"estimator": "CVIART(DualVigilanceART(FuzzyART))" if nest else "CVIART(FuzzyART)", "validity": validity, "rho": rho,
-            "rho_lower_bound": float(base.rho_lower_bound) if nest else None, "X": X.tolist()}
+            "rho_lower_bound": float(base.rho_lower_bound) if nest else None, "X": X.tolist(), "max_iter": max_iter}
     if rng.random() < 0.4:
         # the gate of a fit on a USED estimator (fitted before on other rows) is judged like any other
         X0 = np.array(B.grid_rows(rng, rng.randrange(3, 8), d), dtype=float)
@@ -195,36 +234,41 @@ def cviart_gate(rng):
         try:
             with np.errstate(all="ignore"):
                 est.fit(X0)
-        except Exception:
-            return None
+        except Exception as e:
+            return {"signature": "CVIART/raises", "text": f"fit raised {type(e).__name__}: {str(e)[:90]}", "replay": summ}
     est.CVI_match = wrapped
+    est.base_module.step_fit = step
     try:
         with np.errstate(all="ignore"):
-            est.fit(X)
+            est.fit(X, max_iter=max_iter)
     except Exception as e:
-        return None       # sklearn rejects degenerate labelings (a single label): outside the API's domain
+        return {"signature": "CVIART/raises", "text": f"fit(max_iter={max_iter}) raised {type(e).__name__}: {str(e)[:90]}", "replay": summ}
+    finally:
+        del est.base_module.step_fit
     if touched:
         return {"signature": "CVIART/gate", "text": f"evaluating candidate cluster {touched[0][1]} for sample {touched[0][0]} changed the live labelling "
                 "(later candidates are not compared with the labelling before the step)", "replay": summ}
-    for idx, c_, r, labs, nW in calls:
-        if nW < 2:
-            continue
-        try:
-            old = fn(X, labs)
-            new_l = labs.copy(); new_l[idx] = c_
-            new = fn(X, new_l)
-        except Exception:
-            continue
-        want = (new < old) if validity == 2 else (new > old)
-        if r != want:
-            return {"signature": "CVIART/gate", "text": f"CVI_match returned {r} but index old={old} new={new} (validity {validity})", "replay": summ}
-    labels = [int(v) for v in est.labels_]
-    for i, l in enumerate(labels):
-        if i > 0 and l in labels[:i]:
-            mine = [c for c in calls if c[0] == i and c[1] == l]
-            if not any(c[2] for c in mine):
-                return {"signature": "CVIART/gate", "text": f"sample {i} joined the existing cluster {l} although the validity test "
+
+    def defined(l):
+        return 2 <= len(set(int(v) for v in l)) <= len(l) - 1
+    for k, st in enumerate(steps):
+        labs = st["labs"]
+        for c_, r in st["calls"]:
+            new_l = labs.copy(); new_l[st["index"]] = c_
+            if st["ncat"] < 2 or not (defined(labs) and defined(new_l)):
+                continue            # nothing to compare: the index does not exist for one of the labellings
+            old, new = fn(X, labs), fn(X, new_l)
+            want = (new < old) if validity == 2 else (new > old)
+            if r != want:
+                return {"signature": "CVIART/gate", "text": f"step {k} (sample {st['index']}): CVI_match returned {r} for cluster {c_} but index old={old} new={new} (validity {validity})", "replay": summ}
+        if st["label"] in st["existing"] and st["ncat"] >= 1:
+            mine = [c for c in st["calls"] if c[0] == st["label"]]
+            if not any(c[1] for c in mine):
+                i = st["index"] if st["index"] is not None else "?"
+                return {"signature": "CVIART/gate", "text": f"step {k}: sample {i} joined the existing cluster {st['label']} although the validity test "
                         + ("never passed" if mine else "was never consulted for that assignment"), "replay": summ}
+    if [int(v) for v in est.labels_] != [st["label"] for st in steps[-len(X):]]:
+        return {"signature": "CVIART/gate", "text": "labels_ is not the outcome of the last epoch's steps", "replay": summ}
     return None
 
 
